@@ -33,7 +33,7 @@ class SpecCtx:
 
 class SpecRT:
     SPEC_FORMS = {'old', 'forall', 'exists', 'requires', 'ensures', 'raises', 'modifies', 'modifies_all',
-                  'modifies_cattr', 'returns_abs', 'label', 'modifies_ghost'}
+                  'modifies_cattr', 'returns_abs', 'label', 'modifies_ghost', 'modifies_dict'}
     SPEC_BUILTINS = {'implies', 'iff', 'floor_of', 'ceil_of', 'pow10', 'is_int', 'is_none', 'is_instance', 'fresh',
                      'allocated', 'and_', 'or_', 'not_', 'ite', 'is_dfmt', 'is_dfmt_g', 'str_denotes',
                      'kind_of', 'cls', 'is_val', 'same_ref', 'truthy', 'str_of_int', 'any_int', 'any_str',
@@ -41,7 +41,10 @@ class SpecRT:
                      'sv', 'static', 'has_underscore', 'floor_real', 'to_real',
                      'ghost', 'in_election', 'logged_now', 'seq_len', 'seq_at', 'is_whole', 'times_whole', 'some',
                      'cand_by_cid', 'validcid', 'whole', 'units', 'scale_S', 'is_ballot', 'hopeful_set',
-                     'mem', 'length', 'msg_names', 'exact_arith', 'instance_is', 'V_of_int', 'field_updated', 'field_unchanged'}
+                     'mem', 'length', 'msg_names', 'exact_arith', 'instance_is', 'V_of_int', 'field_updated', 'field_unchanged',
+                     'dhas', 'dval', 'distinct_refs', 'is_digit_string', 'int_accepts', 'norm_any', 'dict_is',
+                     'old_dict', 'dict_same', 'any_mem', 'any_of', 'any_is_int', 'any_int_value', 'str_is_int_of',
+                     'any_is_none', 'any_eq', 'any_same', 'returned_class'}
 
     def init(self):
         self.ctx = None
@@ -151,6 +154,12 @@ class SpecRT:
                 ov = self.spec_eval(e.args[0], st, fr)
                 for fa in e.args[1:]:
                     ctx.modifies.append(('all', ov.info.qualname, ast.literal_eval(fa)))
+            return ex.ok(NONE, st)
+        if name == 'modifies_dict':
+            if ctx is not None and ex.spec_mode == 'pre':
+                ctx.frame_declared = True
+                ov = self.spec_eval(e.args[0], st, fr)
+                ctx.modifies.append(('dict', ov))
             return ex.ok(NONE, st)
         if name == 'modifies_ghost':
             if ctx is not None and ex.spec_mode == 'pre':
@@ -436,6 +445,11 @@ class SpecRT:
                 if kind is None:
                     raise Unsupported('modifies unknown class attribute %s.%s' % (cq, attr))
                 st.cattr[(cq, attr)] = self.fresh_of_kind(kind, 'hv_' + attr)
+            elif m[0] == 'dict':
+                has, val = self.dict_arrays(st)
+                d = m[1].t
+                st.heap[('dict', 'has')] = z3.Store(has, d, z3.Const(fresh_name('hv_has'), z3.ArraySort(self.AnyT, B)))
+                st.heap[('dict', 'val')] = z3.Store(val, d, z3.Const(fresh_name('hv_val'), z3.ArraySort(self.AnyT, self.AnyT)))
             elif m[0] == 'ghost':
                 from .models import ghost_get, ghost_fresh
                 st.ghost['g:' + m[1]] = ghost_fresh(m[1])
